@@ -32,9 +32,10 @@ ASSUMPTIONS = [
     'molecule facts (ring membership, SSSR ring sizes, aromatic flags, '
     'charges, radical electrons, bond types) are RDKit input, not under test',
     'match sets above RDKit\'s maxMatches=10000 are not generated; label '
-    'names are identifiers that are not reserved words; the * suffix and the '
-    'allylic prefix carry no verdict; stereo constraints are exercised '
-    'through C02/C03 only',
+    'names are identifiers that are not reserved words; the * suffix carries '
+    'no verdict; the allylic prefix means "the atom has a double bond" (pinned '
+    'by the repository\'s test_atom_prefix3); stereo constraints are '
+    'exercised through C02/C03 only',
 ]
 CONFIG = {
     'shards': {'quick': 16, 'thorough': 16},
